@@ -380,7 +380,7 @@ class SharedInst:
     """letter = (trig, adr, we, dat) per manager, concatenated.  outputs: shared irq, then the five outputs of
     every manager."""
 
-    def __init__(self, kinds_list, dw, ordering="big"):
+    def __init__(self, kinds_list, dw, ordering="big", small=False):
         self.top = SharedTop(kinds_list, dw, ordering)
         self.netlist = Netlist(self.top)
         self.views = [EvView(t.ev, t.bank, t.bus, k, 0, ordering) for t, k in zip(self.top.tops, kinds_list)]
@@ -395,6 +395,8 @@ class SharedInst:
             full = (1 << v.n) - 1
             ops = [(v.idle_adr(), 0, 0), (v.bus_adr(v.local_index(1, 0)), 1, full),
                    (v.bus_adr(v.local_index(2, 0)), 1, full), (v.bus_adr(v.local_index(2, 0)), 1, 0)]
+            if small:
+                ops = ops[:3]
             per.append([(t,) + op for t in range(1 << v.n) for op in ops])
         size = 1
         for p in per:
@@ -550,3 +552,28 @@ class ClientInst:
                 else:
                     bus = (adr, 1, rng.choice([0, 1, 2, 3, rng.getrandbits(v.bw)]), 0)
         return (t,) + st + tuple(bus)
+
+
+class GpioInst(ClientInst):
+    """GPIOIn / GPIOTristate with_irq against the Lean `gpioIrq` model: the model computes the triggers itself from
+    the synchronised pad values and the mode/edge registers (sampled from the real signals); the real
+    `source.trigger` vector is an additional compared output."""
+
+    def __init__(self, name, core, npads, dw, stim, gen_stim, ordering="big"):
+        ClientInst.__init__(self, name, core, ["r"] * npads, dw, stim, gen_stim, None, ordering)
+        self.lean_open = "gpio %d %d %d" % (dw, 1 if ordering == "little" else 0, npads)
+        self.qual = [None] * 6
+
+    def apply(self, letter):
+        ClientInst.apply(self, letter)
+        n, c = self.netlist, self.core
+        self.trig_log[letter[0]] = (n.getu(c._in.status), n.getu(c._mode.storage), n.getu(c._edge.storage))
+
+    def sample(self):
+        outs = ClientInst.sample(self)
+        return outs + [vec(self.last_obs["trig"])]
+
+    def model_letter(self, letter):
+        l, we, dat = self.bus_of(letter)
+        i, m, e = self.trig_log[letter[0]]
+        return (i, m, e, l, we, dat)
